@@ -395,7 +395,7 @@ def _cal_objects(pk, prior, tmp):
     np.save(tgt, target)
     cal = calib.calibration([tgt], [ParameterValues(key=K_INC, values="_", boundaries=(0.0, 10.0)),
                                     ParameterValues(key=K_A, values="_", boundaries=(0.0, 100.0))],
-                            fit_range=(0, ROWS, 0, COLS), pygmo_seed=1 + _s(), population_size=4, generations=1)
+                            fit_range=(0, ROWS, 0, COLS), pygmo_seed=1 + _s(), population_size=8, generations=1)
     det, pipe = make_objects(pk, prior)
     return cal, det, pipe, target, Processor(detector=det, pipeline=pipe)
 
